@@ -180,8 +180,8 @@ theorem C06_run_survives_partial (hs : NoSortAbort) (w : W) (ps : List PassIn) :
     (runPasses w ps).exited = w.exited :=
   runPasses_exited_plain hs w ps      -- corollary of `C06_run_survives_runX_partial` (passes that bring no regex answer)
 
-example : (runPasses Ex.world [{ now := 0, acc := 1, con := 0, soe := 0, envs := [] },
-    { now := 1, acc := 0, con := 0, soe := 0, envs := [{ fd := 1000, rev := 1, rk := 0, data := bstr "telemetry\n", cap := 4096 }] }]).clients.map (·.toBuf) =
+example : (runPasses Ex.world [{ now := 0, acc := 1, con := [0], soe := [0], envs := [] },
+    { now := 1, acc := 0, con := [0], soe := [0], envs := [{ fd := 1000, rev := 1, rk := 0, data := bstr "telemetry\n", cap := 4096 }] }]).clients.map (·.toBuf) =
     [render [.line 1 (bstr "2.4.4"), .prompt, .line 104 (bstr "Telemetry ON"), .prompt]] := by
   decide +kernel
 
